@@ -488,8 +488,8 @@ func runC03(w *World, c *Check) {
 	if a := w.Func("spnego.(*SPNEGO).AcceptSecContext"); a != nil {
 		afa := NewFuncAn(w, a)
 		eq := `github\.com/jcmturner/gofork/encoding/asn1\.\(ObjectIdentifier\)\.Equal\(`
-		pass := afa.MatchGuard(TruePass(eq + `.*, gssapi\.\(OIDName\)\.OID\("KRB5"\)\)`))
-		pass = append(pass, afa.MatchGuard(TruePass(eq+`.*, gssapi\.\(OIDName\)\.OID\("MSLegacyKRB5"\)\)`))...)
+		// one guard with two accepting spellings: also found behind a helper that tests `a || b`
+		pass, _ := afa.MatchGuardSet([]GuardPat{TruePass(eq + `.*, gssapi\.\(OIDName\)\.OID\("KRB5"\)\)`), TruePass(eq + `.*, gssapi\.\(OIDName\)\.OID\("MSLegacyKRB5"\)\)`)}, nil)
 		for _, ci := range afa.Calls(`spnego\.\(\*SPNEGOToken\)\.Verify|gssapi\.ContextToken\.Verify`) {
 			p := afa.PathToInstrAvoiding(pass, ci)
 			c.Decide(len(pass) > 0 && p == nil, "C03.mech", FuncKey(a), "oid-before-verify", w.Pos(InstrPos(ci)), "the token is verified only when its mechanism OID is KRB5 or MS-legacy KRB5", "Verify reachable without the OID test: "+afa.DescribePath(p))
